@@ -25,4 +25,5 @@ def plan(tier, seed):
     units = [Unit('C10-gxx-%d' % i, 'gxx', 'props/C10.h', [r], rc_cases=cases, chunk=1, words=64) for i, r in enumerate(regs)]
     units.append(Unit('C10-clang-0', 'clang', 'props/C10.h', regs[5:6], rc_cases=cases, chunk=1, words=64))
     units.append(Unit('C10-clang-1', 'clang', 'props/C10.h', regs[9:10], rc_cases=cases, chunk=1, words=64))
-    return dict(units=units, rule=RULE, assumptions=['values are moved in and out of wide types through the limb array (uintwide_t::representation), never through CNL arithmetic'])
+    from .common import with_fuzz
+    return with_fuzz(dict(units=units, rule=RULE, assumptions=['values are moved in and out of wide types through the limb array (uintwide_t::representation), never through CNL arithmetic']), 'C10', 'props/C10.h', [regs[3], regs[5], regs[6], regs[9]], tier, 40000, 2000000, max_len=514, chunk=1)
